@@ -645,7 +645,7 @@ def catalogue_cases(behs, tier, rng, rep):
     chosen = [rng.choice(v) for _, v in sorted(by_sit.items())]
     rest = [b for b in meshes if all(b is not c for c in chosen)]
     rng.shuffle(rest)
-    budget = 200 if tier == "quick" else 1500
+    budget = 200 if tier == "quick" else 2500
     if len(chosen) > budget:
         rng.shuffle(chosen)
     chosen = (chosen + rest)[:max(budget, 0)]
